@@ -14,7 +14,8 @@ RULE = ("cases = random schema specs (profile weighted to what runs after a type
 ASSUMPTIONS = ["objects whose own special methods raise are excluded, as the property says",
                "self-referential containers are tried alone only against scalar/any/untyped positions (RecursionError from "
                "Python's own repr/== of a cyclic value is not a d42 defect)"]
-TIERS = {"quick": dict(shards=16, cases=1600), "thorough": dict(shards=16, cases=30000)}
+REACH_FILES = ['d42/validation/_validator.py', 'd42/validation/_formatter.py', 'd42/validation/__init__.py']
+TIERS = {"quick": dict(shards=16, cases=4000), "thorough": dict(shards=16, cases=30000)}
 
 PROF = Profile(max_depth=3, nonfinite=True, p_value=0.4,
                kinds={"none": 1, "bool": 2, "int": 6, "float": 12, "str": 8, "list": 9, "dict": 9, "any": 4,
